@@ -404,7 +404,7 @@ func (s *Script) useStr(feature string) {
 	switch feature {
 	case "len":
 		s.prelude = append(s.prelude,
-			"(assert (forall ((s Str)) (! (>= (slen s) 0) :pattern ((slen s)))))",
+			"(assert (forall ((s Str)) (! (and (>= (slen s) 0) (<= (slen s) 9223372036854775807)) :pattern ((slen s)))))",
 			"(assert (forall ((s Str)) (! (=> (= (slen s) 0) (= s str_empty)) :pattern ((slen s)))))")
 	case "concat":
 		s.useStr("len")
@@ -469,6 +469,7 @@ func (s *Script) typeInvList(t types.Type, term string, depth int) []string {
 			"(>= (s_base " + term + ") 0)", "(>= (s_off " + term + ") 0)",
 			"(>= (s_len " + term + ") 0)", "(<= (s_len " + term + ") (s_cap " + term + "))",
 			"(=> (= (s_base " + term + ") 0) (= (s_cap " + term + ") 0))",
+			"(<= (+ (s_off " + term + ") (s_cap " + term + ")) 9223372036854775807)",
 		}
 	case *types.Struct:
 		var out []string
